@@ -17,7 +17,7 @@ prop(
     "C11",
     level="proof",
     design_ref="DESIGN.md section 3, C11",
-    groups=[(["./plugin/input/http"], r"^\(\*Plugin\)\.(processChunk|processBulk|newReadBuff|newEventBuffs|serveBulk|getSourceID|putSourceID)$")],
+    groups=[(["./plugin/input/http"], r"^(\(\*Plugin\)\.(processChunk|processBulk|newReadBuff|newEventBuffs|serveBulk|getSourceID|putSourceID)|newMetaInformation)$")],
     canaries=[("./plugin/input/http", "replay/C11/zz_content_encoding_case_test.go", "TestVerifContentEncodingAnyCase")],
     claim=(
         "For every request body, every chunking of it into reads (io.Reader.Read may return any n) and every buffer state, "
@@ -68,7 +68,7 @@ prop(
     "C20",
     level="proof",
     design_ref="DESIGN.md section 3, C20",
-    groups=[(["./pipeline"], r"^\(\*Pipeline\)\.(checkInputBytes|In)$"), (["./pipeline/antispam"], r"^\(\*Antispammer\)\.(IsSpam|Maintenance)$"), (["./cfg/matchrule"], r"^\(\*Rule\)\.(Match|match|Prepare)$"),
+    groups=[(["./pipeline"], r"^\(\*Pipeline\)\.(checkInputBytes|In|antispammerMaintenance)$"), (["./pipeline/antispam"], r"^(\(\*Antispammer\)\.(IsSpam|Maintenance)|\(\*antispamData\)\.Get)$"), (["./cfg/matchrule"], r"^\(\*Rule\)\.(Match|match|Prepare)$"),
             (["./fd"], r"^(scaleAntispamThreshold|extractAntispamRules|extractPipelineParams)$")],
     canaries=[("./pipeline", "replay/C20/zz_raw_last_byte_test.go", "TestVerifRawKeepsRecordBytes"),
               ("./fd", "replay/C20/zz_subsecond_interval_test.go", "TestVerifAntispamSubSecondInterval"),
@@ -201,7 +201,7 @@ prop(
     "C01",
     level="other",
     design_ref="DESIGN.md section 3, C01",
-    groups=[(_PIPE, r"^(\(\*Batcher\)\.(work|commitBatch|trySendBatchAndUnlock)|\(\*RetriableBatcher\)\.Out|\(\*processor\)\.(doActions|processSequence|processEvent|Propagate)|\(\*Pipeline\)\.finalize|\(\*stream\)\.(commit|tryDetach|leave|tryUnblock)|\(\*Router\)\.(Fail|Out|IsDeadQueueAvailable))$")],
+    groups=[(_PIPE, r"^(\(\*Batcher\)\.(work|commitBatch|trySendBatchAndUnlock)|\(\*RetriableBatcher\)\.Out|\(\*processor\)\.(doActions|processSequence|processEvent|Propagate|Spawn)|\(\*Event\)\.(SetChildKind|SetChildParentKind)|\(\*Pipeline\)\.finalize|\(\*stream\)\.(commit|tryDetach|leave|tryUnblock)|\(\*Router\)\.(Fail|Out|IsDeadQueueAvailable))$")],
     claim=(
         "Each mechanism the commit-frontier property names is a proved contract on the real function: (1) Batcher.work commits a batch only after its own send returned, commitBatch commits in batch-sequence order under seqMu (monitor) and each event once; "
         "(2) doActions finalizes an event at most once, only after discard / collapse / hold, never notifying the input (so dropped, merged or held events never move the input offset), returning it to the pool for discard and collapse but not for hold; "
@@ -224,7 +224,7 @@ prop(
     "C02",
     level="other",
     design_ref="DESIGN.md section 3, C02",
-    groups=[(_PIPE, r"^(\(\*stream\)\.(put|get|instantGet|commit|tryDetach|leave|tryUnblock)|\(\*streamer\)\.getStream|\(\*Pipeline\)\.(finalize|streamEvent)|\(\*processor\)\.(processEvent|processSequence|Propagate|doActions)|\(\*Batcher\)\.(Add|commitBatch))$")],
+    groups=[(_PIPE, r"^(\(\*stream\)\.(put|get|instantGet|commit|tryDetach|leave|tryUnblock)|\(\*streamer\)\.getStream|\(\*Pipeline\)\.(finalize|streamEvent)|\(\*processor\)\.(processEvent|processSequence|Propagate|doActions|Spawn)|\(\*Batcher\)\.(Add|commitBatch))$")],
     claim=(
         "Per-stream order mechanisms proved: stream.put hands out strictly increasing sequence ids in arrival order under the stream lock and appends at the tail; get takes the head (FIFO) and records it as the stream's away event; "
         "after hold/collapse the processor takes the next event from the same stream; Propagate re-injects a held event at the action after the one that held it before the triggering event continues; "
@@ -285,7 +285,7 @@ prop(
     "C14",
     level="other",
     design_ref="DESIGN.md section 3, C14",
-    groups=[(["./pipeline/doif"], r"^(\(\*logicalNode\)\.Check|NewLogicalNode|NewFieldOpNode|\(\*fieldOpNode\)\.Check|\(\*lenCmpOpNode\)\.Check|\(\*tsCmpOpNode\)\.Check|getNodeBytesSize|getNodeFieldsBytesSize)$"),
+    groups=[(["./pipeline/doif"], r"^(\(\*logicalNode\)\.Check|NewLogicalNode|NewFieldOpNode|\(\*fieldOpNode\)\.Check|\(\*lenCmpOpNode\)\.Check|\(\*tsCmpOpNode\)\.Check|getNodeBytesSize|getNodeFieldsBytesSize|extractOpValuesFromArr|\(cmpOperation\)\.compare)$"),
             (["./fd"], r"^extractConditions$"),
             (["./pipeline"], r"^(\(\*processor\)\.(isMatch|isMatchOr|isMatchAnd)|\(\*MatchCondition\)\.valueExists)$")],
     canaries=[("./pipeline", "replay/C14/zz_replay_c14_test.go", "TestVerifReplayC14"),
@@ -310,7 +310,7 @@ prop(
     "C16",
     level="other",
     design_ref="DESIGN.md section 3, C16",
-    groups=[(["./plugin/action/throttle"], r"^(rebuildBuckets|\(\*simpleBuckets\)\.(rebuild\$1|add|get|reset)|\(\*inMemoryLimiter\)\.(isAllowed|rebuildBuckets)|\(\*limitersMap\)\.getOrAdd)$"),
+    groups=[(["./plugin/action/throttle"], r"^(rebuildBuckets|\(\*simpleBuckets\)\.(rebuild\$1|add|get|reset)|\(\*inMemoryLimiter\)\.(isAllowed|rebuildBuckets)|\(\*limitersMap\)\.getOrAdd|\(bucketsMeta\)\.timeToBucketID)$"),
             (["./plugin/action/throttle", "./pipeline"], r"^\(\*rule\)\.isMatch$")],
     claim=(
         "In-memory throttle with simple buckets, for all event times and clock positions (bucket ids are arbitrary integers): rebuildBuckets keeps maxID == minID + count - 1, never moves the window backwards, "
@@ -402,6 +402,7 @@ prop(
             (["./plugin/action/decode", "./pipeline"], r"^\(\*Plugin\)\.(Do|decodeJson|checkError)$"),
             (["./plugin/action/parse_es", "./pipeline"], r"^\(\*Plugin\)\.Do$"),
             (["./plugin/action/cardinality"], r"^\(\*Plugin\)\.Start$"),
+            (["./plugin/action/modify"], r"^\(\*Plugin\)\.Do$"),
             (["./plugin/action/throttle"], r"^\(\*Plugin\)\.Start$")],
     canaries=[("./plugin/action/mask", "replay/C17/zz_replay_c17_test.go", "TestVerifReplayC17Tail"), ("./plugin/input/k8s", "replay/C13/zz_replay_c13_test.go", "TestVerifReplayC13"),
               ("./pipeline", "replay/C13/zz_timeout_wrong_action_test.go", "TestVerifTimeoutGoesToTheWaitingAction"),
